@@ -609,6 +609,31 @@ def _chan_setcb_handles_concurrent_close():
     return "true" if ok else "false"
 
 
+@fact("chan_close_shape_ok", "bool", "false")
+def _chan_close_shape_ok():
+    """Channel.close(): refused while the remote_exec body runs; when not yet closed -- from the open AND from the send-only
+    state -- it notifies the peer (unless receiving has finished), records the error, sets _closed and _receiveclosed,
+    queues the ENDMARKER and unregisters; send() refuses on a closed channel; isclosed() is _closed; __del__ of an
+    open or send-only channel notifies the peer"""
+    f = find("gateway_base.py", "Channel.close")
+    body = _body_nodoc(f)
+    t = [_src(n) for n in _Strip().visit(__import__("copy").deepcopy(f)).body]
+    t = [x for x in t if not x.startswith("'") and not x.startswith('"')]
+    ok = len(body) == 3 and t[0].startswith("if self._executing:\n    raise OSError(") and isinstance(body[2], ast.If) and _src(body[2].test) == "not self._closed"
+    inner = [_src(n) for n in _Strip().visit(__import__("copy").deepcopy(body[2])).body]
+    want = ["if not self._receiveclosed.is_set() or not self.gateway._channelfactory.finished:\n    put = self.gateway._send\n    if error is not None:\n        put(Message.CHANNEL_CLOSE_ERROR, self.id, dumps_internal(error))\n    else:\n        put(Message.CHANNEL_CLOSE, self.id)",
+            "if isinstance(error, RemoteError):\n    self._remoteerrors.append(error)", "self._closed = True", "self._receiveclosed.set()", "queue = self._items",
+            "if queue is not None:\n    queue.put(ENDMARKER)", "self.gateway._channelfactory._no_longer_opened(self.id)"]
+    ok = ok and inner == want and not body[2].orelse
+    sd = _src(find("gateway_base.py", "Channel.send"))
+    ok = ok and "if self.isclosed():\n        raise OSError(" in sd
+    ic = [_src(n) for n in _body_nodoc(find("gateway_base.py", "Channel.isclosed"))]
+    ok = ok and ic == ["return self._closed"]
+    dl = _src(find("gateway_base.py", "Channel.__del__"))
+    ok = ok and "elif self._receiveclosed.is_set() and self.gateway._channelfactory.finished:\n        pass" in dl and "msgcode = Message.CHANNEL_LAST_MESSAGE" in dl and "msgcode = Message.CHANNEL_CLOSE" in dl and "self.gateway._send(msgcode, self.id)" in dl
+    return "true" if ok else "false"
+
+
 @fact("chan_receiver_locked", "bool", "false")
 def _chan_receiver_locked():
     """BaseGateway._thread_receiver handles every message inside `with self._receivelock:`; handlers are reached
